@@ -283,6 +283,14 @@ class Masked:
         return f"Masked<{self.full!r} axis={self.axis}>"
 
 
+class ConstList:
+    """python list of n copies of one scalar (n symbolic): [c for _ in range(n)]"""
+
+    def __init__(self, value, n):
+        self.value = value
+        self.n = n
+
+
 class Obj:
     """record-like python object (Grid, trees, accessors ...) with symbolic fields"""
 
@@ -441,7 +449,7 @@ def clone(v, memo):
         return r
     if isinstance(v, StrSym):
         return v
-    if type(v).__name__ in ("Masked", "RavelView", "DType", "NanTok", "_Unset", "AggFn", "SuperProxy"):
+    if type(v).__name__ in ("Masked", "RavelView", "DType", "NanTok", "_Unset", "AggFn", "SuperProxy", "ConstList"):
         return v
     if isinstance(v, set):
         return set(v)
